@@ -2,7 +2,7 @@
    Constant pacer: proved in full (exact integer arithmetic).  Linear and sine pacers: see
    the partial statements at the end and DESIGN.md. *)
 From Coq Require Import ZArith List Bool Lia.
-From V Require Import Model.AttackLTS Proofs.AttackProofs Proofs.LoopScheduleProofs Proofs.LoopScheduleLinear.
+From V Require Import Model.AttackLTS Proofs.AttackProofs Proofs.LoopScheduleProofs Proofs.LoopScheduleLinear Proofs.LoopScheduleConst.
 From V Require Import Model.Pacer Proofs.PacerProofs Model.LinearPacer Proofs.LinearProofs Model.Trig Model.SinePacer Proofs.TrigProofs Proofs.SineProofs.
 From Coq Require Import Qround.
 Import ListNotations.
@@ -84,6 +84,15 @@ Proof.
   - unfold const_adm in A. split; [exact A | nia].
 Qed.
 Print Assumptions attack_loop_constant_on_schedule.
+
+(* ... and the whole attack: with a duration set, all ticks but the last one were released by the
+   deadline and on the schedule, so an attack of duration du at Freq hits per Per releases (and
+   starts) at most Freq * du / Per + 1 hits - on any scheduler, with any number of workers *)
+Theorem attack_constant_total_hits : forall F P c s, 0 < F -> 0 < P -> 0 < du c -> reachable c s ->
+  (forall e h w, In (e, h, w, false) (paces s) -> const_dom F P e h /\ const_pace F P e h = Wait w) ->
+  (count s - 1) * P <= F * du c /\ (AttackLTS.seq s - 1) * P <= F * du c.
+Proof. exact const_total_hits_lemma. Qed.
+Print Assumptions attack_constant_total_hits.
 
 (* The pinned ConstantPacer.Pace (before the fix: commit): three refutations. *)
 Theorem const_no_panic_refuted :
